@@ -77,14 +77,17 @@ contract(SV + 'x_update_prox', props=['C02', 'C03', 'C19'],
          params=dict(empirical_covariance='arr2[real]', z_minus_u='arr2[real]', rho='real'), returns='arr1[real]',
          requires=["rho > 0", "empirical_covariance.shape[0] == empirical_covariance.shape[1]",
                    "z_minus_u.shape[0] == empirical_covariance.shape[0]", "z_minus_u.shape[1] == empirical_covariance.shape[0]"],
-         ghost={'returns': dict(D='d', IT='inner_term', TH='theta_new'),
-                'return_kinds': dict(D='arr1[real]', IT='arr2[real]', TH='arr2[real]')},
+         ghost={'returns': dict(D='d', Q='q', IT='inner_term', TH='theta_new', SC='rho_scale'),
+                'return_kinds': dict(D='arr1[real]', Q='arr2[real]', IT='arr2[real]', TH='arr2[real]', SC='real')},
          ensures=["2*result.shape[0] == z_minus_u.shape[0]*(z_minus_u.shape[0] + 1)",
                   # per eigenvalue d of rho*(Z-U) - S the new eigenvalue e = IT/(2 rho) is positive and solves
                   # rho*e - 1/e = d, i.e. it is the exact minimiser of -log e + (rho/2)(e - ..)^2 in that eigen-direction
-                  ("new-eigenvalues-positive", "forall(0, z_minus_u.shape[0], lambda i: IT[i, i] / (2*rho) > 0)"),
+                  ("new-eigenvalues-positive", "forall(0, z_minus_u.shape[0], lambda i: SC * IT[i, i] > 0)"),
                   ("new-eigenvalues-solve-prox-equation", "forall(0, z_minus_u.shape[0], lambda i: "
-                   "rho * (IT[i, i] / (2*rho)) - 1 / (IT[i, i] / (2*rho)) == D[i])"),
+                   "rho * (SC * IT[i, i]) - 1 / (SC * IT[i, i]) == D[i])"),
+                  # Theta = Q diag(e) Q^T with (D, Q) the eigen-decomposition of rho*(Z-U) - S
+                  ("theta-is-spectral-map", "forall(lambda i, j: TH[i, j] == SC * matmul(matmul(Q, IT), transpose(Q))[i, j])"),
+                  ("eigen-decomposition-of-the-right-matrix", "eigh_of(D, Q, lambda i, j: rho * z_minus_u[i, j] - empirical_covariance[i, j], z_minus_u.shape[0])"),
                   ("inner-term-is-diagonal", "forall(lambda i, j: implies(0 <= i and i < z_minus_u.shape[0] and 0 <= j and "
                    "j < z_minus_u.shape[0] and i != j, IT[i, j] == 0))"),
                   ("result-is-compressed-theta", "forall(lambda r, c: implies(0 <= r and r <= c and c < z_minus_u.shape[0], "
@@ -98,3 +101,74 @@ contract(SV + 'admm_update_x', props=['C02', 'C19'],
                    "2*z.shape[0] == empirical_covariance.shape[0]*(empirical_covariance.shape[0] + 1)",
                    "empirical_covariance.shape[0] == empirical_covariance.shape[1]"],
          ensures=["result.shape[0] == z.shape[0]", "fresh(result)", "unchanged(u, z, empirical_covariance, args)"])
+
+# compressed index of occurrence j of Toeplitz class (b, r, c) for block size N and W blocks
+specfn('cidx', "lambda b, r, c, j, N, W: tri_rank(j*N + r, (b + j)*N + c, N*W)",
+       sig=(['int'] * 6, 'int'), uf=True)
+specfn('validcls', "lambda b, r, c, N, W: 0 <= b and b < W and 0 <= r and r < N and 0 <= c and c < N and (b > 0 or r <= c)")
+specfn('soft', "lambda S, Lam, P: ite(S > Lam, (S - Lam)/P, ite(S < -Lam, (S + Lam)/P, 0))")
+# sum of T over the W-b compressed positions of class (b, r, c):  sum_j T[cidx(b,r,c,j,N,W)]   (defined, never unfolded by the solver)
+specfn('cls_sum', sig=(['arr1[real]'] + ['int'] * 5, 'real'),
+       native="lambda T, b, r, c, N, W: sum(T[(j*N + r)*(N*W) - ((j*N + r)*(j*N + r + 1))//2 + (b + j)*N + c] for j in range(W - b))")
+
+_ZVAL = ("soft(args.rho * cls_sum(theta_plus_u, b2, r2, c2, block_size, num_blocks), %s, args.rho * (num_blocks - b2))")
+_ZINV = ("forall(lambda b2, r2, c2, j2: implies(validcls(b2, r2, c2, block_size, num_blocks) and (%s) and 0 <= j2 and "
+         "j2 < num_blocks - b2, z_update[cidx(b2, r2, c2, j2, block_size, num_blocks)] == " + _ZVAL + "))")
+_INJ = ("forall(lambda b1, r1, c1, j1, b2, r2, c2, j2: implies(validcls(b1, r1, c1, block_size, num_blocks) and "
+        "validcls(b2, r2, c2, block_size, num_blocks) and 0 <= j1 and j1 < num_blocks - b1 and 0 <= j2 and j2 < num_blocks - b2 and "
+        "cidx(b1, r1, c1, j1, block_size, num_blocks) == cidx(b2, r2, c2, j2, block_size, num_blocks), "
+        "b1 == b2 and r1 == r2 and c1 == c2 and j1 == j2))")
+
+
+def _zupdate(variant, lam_kind, lam_expr, extra_pre, schema):
+    contract(SV + 'admm_update_z' + variant, props=['C02', 'C19'],
+             params=dict(args='obj:ADMMArguments', u='arr1[real]', x='arr1[real]'), returns='arr1[real]',
+             requires=["args.rho > 0", "args.window_size >= 1", "args.num_data_series >= 1",
+                       "args.window_size * args.num_data_series < 67108864", "u.shape[0] == x.shape[0]",
+                       "2*x.shape[0] == args.window_size*args.num_data_series*(args.window_size*args.num_data_series + 1)"] + extra_pre,
+             ghost={'returns': dict(theta_plus_u='theta_plus_u', block_size='block_size', num_blocks='num_blocks'),
+                    'return_kinds': dict(theta_plus_u='arr1[real]', block_size='int', num_blocks='int'),
+                    'schema': schema},
+             axioms=[("toeplitz-class-positions-are-pairwise-distinct", _INJ.replace('block_size', 'args.num_data_series').replace('num_blocks', 'args.window_size'))],
+             ensures=["result.shape[0] == x.shape[0]", "block_size == args.num_data_series", "num_blocks == args.window_size",
+                      ("theta-plus-u", "forall(0, x.shape[0], lambda i: theta_plus_u[i] == x[i] + u[i])"),
+                      # every occurrence of every Toeplitz class holds the exact minimiser of the class problem
+                      ("every-class-position-holds-the-class-prox-value", (_ZINV % ("True", lam_expr)).replace('z_update', 'result')),
+                      "fresh(result)", "unchanged(u, x, args)"],
+             loops={1: dict(inv=[_ZINV % ("b2 < block_id", lam_expr)], modifies=['z_update']),
+                    2: dict(inv=[_ZINV % ("b2 < block_id or (b2 == block_id and r2 < row)", lam_expr)], modifies=['z_update']),
+                    3: dict(inv=[_ZINV % ("b2 < block_id or (b2 == block_id and (r2 < row or (r2 == row and c2 < col)))", lam_expr),
+                                 "start_column <= col"],
+                            modifies=['z_update'], body_ghost={'zprev': 'copyof(z_update)'},
+                            assume_lemmas=[("cls_sum-unfolds-to-the-gathered-sum",
+                                            "implies(forall(0, num_blocks - block_id, lambda q: indices[q] == cidx(block_id, row, col, q, block_size, num_blocks)), "
+                                            "rsum(lambda q: theta_plus_u[indices[q]], num_blocks - block_id) == "
+                                            "cls_sum(theta_plus_u, block_id, row, col, block_size, num_blocks))")],
+                            lemmas_end=["len(indices) == num_blocks - block_id",
+                                        "forall(0, num_blocks - block_id, lambda q: indices[q] == cidx(block_id, row, col, q, block_size, num_blocks))",
+                                        "rsum(lambda q: theta_plus_u[indices[q]], num_blocks - block_id) == cls_sum(theta_plus_u, block_id, row, col, block_size, num_blocks)",
+                                        "scaled_point_sum == args.rho * rsum(lambda q: theta_plus_u[indices[q]], num_blocks - block_id)",
+                                        "scaled_point_sum == args.rho * cls_sum(theta_plus_u, block_id, row, col, block_size, num_blocks)",
+                                        "forall(lambda b2, r2, c2, j2, q: implies(validcls(b2, r2, c2, block_size, num_blocks) and "
+                                        "(b2 < block_id or (b2 == block_id and (r2 < row or (r2 == row and c2 < col)))) and 0 <= j2 and j2 < num_blocks - b2 "
+                                        "and 0 <= q and q < num_blocks - block_id, indices[q] != cidx(b2, r2, c2, j2, block_size, num_blocks)), "
+                                        "pat=(indices[q], cidx(b2, r2, c2, j2, block_size, num_blocks)))",
+                                        "lambda_sum == %s" % lam_expr.replace('b2', 'block_id'),
+                                        "num_occurrences == num_blocks - block_id",
+                                        "args.rho * num_occurrences == args.rho * (num_blocks - block_id)",
+                                        "soft(scaled_point_sum, lambda_sum, args.rho * num_occurrences) == " + (_ZVAL % lam_expr).replace('b2', 'block_id').replace('r2', 'row').replace('c2', 'col'),
+                                        "forall(0, num_blocks - block_id, lambda q: z_update[indices[q]] == soft(scaled_point_sum, lambda_sum, args.rho * num_occurrences))",
+                                        "forall(0, num_blocks - block_id, lambda q: z_update[indices[q]] == " + (_ZVAL % lam_expr).replace('b2', 'block_id').replace('r2', 'row').replace('c2', 'col') + ")",
+                                        ("cells-not-in-this-class-unchanged", "forall(lambda t: implies(0 <= t and t < z_update.shape[0] and "
+                                         "forall(0, num_blocks - block_id, lambda q: indices[q] != t), z_update[t] == zprev[t]))"),
+                                        ("earlier-class-cells-unchanged", "forall(lambda b2, r2, c2, j2: implies(validcls(b2, r2, c2, block_size, num_blocks) and "
+                                         "(b2 < block_id or (b2 == block_id and (r2 < row or (r2 == row and c2 < col)))) and 0 <= j2 and j2 < num_blocks - b2, "
+                                         "z_update[cidx(b2, r2, c2, j2, block_size, num_blocks)] == zprev[cidx(b2, r2, c2, j2, block_size, num_blocks)]))"),
+                                        ("earlier-class-cells-hold-values-before", (_ZINV % ("b2 < block_id or (b2 == block_id and (r2 < row or (r2 == row and c2 < col)))", lam_expr)).replace('z_update', 'zprev')),
+                                        ("earlier-classes-untouched", _ZINV % ("b2 < block_id or (b2 == block_id and (r2 < row or (r2 == row and c2 < col)))", lam_expr)),
+                                        "forall(0, num_blocks - block_id, lambda q: z_update[cidx(block_id, row, col, q, block_size, num_blocks)] == "
+                                        + (_ZVAL % lam_expr).replace('b2', 'block_id').replace('r2', 'row').replace('c2', 'col') + ")",
+                                        ("this-class-holds-its-value", _ZINV % ("b2 == block_id and r2 == row and c2 == col", lam_expr))])})
+
+
+_zupdate('#float', 'real', "args.sparsity_weight * (num_blocks - b2)", ["args.sparsity_weight >= 0"], {})
